@@ -47,19 +47,19 @@ Print Assumptions C14_slice_utf8.
 (* every reported token indexes its own text ... *)
 Theorem C14_tokens_wf : forall rematch text hits t, valid_text text ->
   Forall (fun o => o <= length (utf8 text)) (hit_offsets hits) ->
-  (forall idx s e a b, rematch idx text s e = Some (a, b) -> a <= b <= e) ->
+  (forall idx s a b, rematch idx text s = Some (a, b) -> a <= b <= length text) ->
   In t (extract rematch text hits) ->
   h_start t <= h_end t <= length text /\ h_data t = slice text (h_start t) (h_end t).
 Proof. exact extract_wf. Qed.
 Print Assumptions C14_tokens_wf.
 
-(* ... and is a genuine in-place match (pattern.match(text, s, e), as repaired) of its extractor's
-   pattern between the character offsets of a reported hit *)
+(* ... and is a genuine in-place match (pattern.match(text, s), as repaired: real context on both sides)
+   of its extractor's pattern at the start character offset of a reported hit *)
 Theorem C14_tokens_genuine : forall rematch text hits t, valid_text text ->
   Forall (fun o => o <= length (utf8 text)) (hit_offsets hits) ->
   In t (extract rematch text hits) ->
   exists s e, In (h_idx t, (bpos text s, bpos text e)) hits /\ s <= length text /\ e <= length text /\
-    rematch (h_idx t) text s e = Some (h_start t, h_end t).
+    rematch (h_idx t) text s = Some (h_start t, h_end t).
 Proof. exact extract_genuine. Qed.
 Print Assumptions C14_tokens_genuine.
 
